@@ -68,6 +68,10 @@ pub fn gen(seed: u64, idx: u64, tier: Tier) -> Case {
         let mut plan = crate::imgwr::plan_from_seed(rng.next_u64(), version);
         plan.v3_size_high_garbage = false;
         plan.library_like_trees = rng.chance(1, 2);
+        if rng.chance(1, 2) {
+            // DIFAT sectors in a small file (both versions): the DIFAT-sector deviations apply
+            plan.extra_fat_sectors = 108 + rng.range(1, 8) as u32;
+        }
         c.init = Init::Foreign { content_seed: rng.next_u64(), max_entries: 14, max_stream: 9000, plan };
     } else {
         c.ops = images::gen_build_ops(&mut rng, version);
